@@ -34,6 +34,9 @@ def run(ctx, col, tier):
 
     from ..rules import memo
     memo.run(ctx, col, ("swcgeom.core.branch", "swcgeom.core.path", "swcgeom.core.node", "swcgeom.core.compartment", "swcgeom.core.tree", "swcgeom.core.swc"))
+    from ..rules import sortedness
+    sortedness.run(ctx, col, ("swcgeom.core.tree", "swcgeom.core.node", "swcgeom.core.path", "swcgeom.core.branch", "swcgeom.core.compartment", "swcgeom.core.swc"))
+    col.guard(navigation, ctx, col)
     col.guard(anchored, ctx, col)
     col.guard(spaces, ctx, col)
     col.guard(accessors, ctx, col)
@@ -352,3 +355,17 @@ def anchored(ctx, col):
                 if unp and {norm_src(x.args[0]), norm_src(x.args[1])} <= {norm_src(e) for e in unp[0].targets[0].elts}:
                     col.bad("R-IDXNORM", g.qualname, g.loc(x), "slices resolve through slice.indices(len(self)): start, stop AND step",
                             f"`{norm_src(x)}` drops the step of `{norm_src(unp[0])}`: `t[::2]` returns every node and `t[::-1]` nothing", stmt="slice", definite=True)
+
+
+def navigation(ctx, col):
+    """A node handle's parent / children are found in the owner by id."""
+    repo = ctx.repo
+    ch = repo.get_def("swcgeom.core.tree.Tree.Node.children")
+    col.text_group("R-ACCESS", ch.qualname, ch, [
+        ("children = the owner's ids of the rows whose parent id is this node's id (a scan by value: the parent column is not sorted)",
+         ["children = self.attach.id()[self.attach.pid() == self.id]"], "nav:children"),
+        ("each child is a handle on the same owner", ["return [Tree.Node(self.attach, idx) for idx in children]"], "nav:wrap")], fixed=("Tree",))
+    pa = repo.get_def("swcgeom.core.tree.Tree.Node.parent")
+    col.text_group("R-ACCESS", pa.qualname, pa, [
+        ("the parent is the handle of this node's parent id on the same owner; the root has none",
+         ["return Tree.Node(self.attach, self.pid) if self.pid != -1 else None"], "nav:parent")], fixed=("Tree",))
